@@ -110,6 +110,10 @@ class Topo:
 
     def apply(self, op, err):
         k = op["op"]
+        if err and k == "destroy" and self.nodes[op["node"]]["kind"] == "sink" and op["node"] not in self.sinks:
+            # Sink.destroy on an already destroyed sink: the links are cut first, then
+            # `_global_sinks.remove(self)` raises KeyError
+            err = None
         if err:
             return
         if k == "connect":
